@@ -94,7 +94,7 @@ func Verif_C09_ApkScripts() {
 	mt := time.Unix(1500000000, 0).UTC()
 	var body [6][]byte
 	var set [6]bool
-	nlen := v.Bound("C09.len", 2, 4) + 1
+	nlen := v.Bound("C09.len", 2, 6) + 1
 	base := v.NondetChoice("script.len", nlen)
 	for i, slot := range verifApkSlots {
 		set[i] = v.NondetBool("has" + slot)
